@@ -228,7 +228,7 @@ where
     let small = k.0[3] >> 63 == 0;
     if small {
         if let Some(ws) = op["windows"].as_array() {
-            let mut res = serde_json::Map::new();
+            let mut res = vec![];
             for w in ws {
                 let w = w.as_u64().unwrap() as usize;
                 let mut table = vec![];
@@ -237,14 +237,17 @@ where
                 pairing::verif_wnaf::wnaf_form(&mut digits, k, w);
                 let r: G = pairing::verif_wnaf::wnaf_exp(&table, &digits);
                 let mut e = serde_json::Map::new();
+                e.insert("w".into(), json!(w));
                 e.insert("r".into(), proj_to_j(&r));
                 e.insert("tlen".into(), json!(table.len()));
                 if op["log_digits"].as_bool().unwrap_or(false) {
                     e.insert("digits".into(), json!(digits));
                 }
-                res.insert(format!("{}", w), Value::Object(e));
+                res.push(Value::Object(e));
             }
-            out.insert("wnaf".into(), Value::Object(res));
+            out.insert("wnaf".into(), Value::Array(res));
+        } else {
+            out.insert("wnaf".into(), json!([]));
         }
         let mut ctx = Wnaf::new();
         let r1: G = ctx.base(p, 1).scalar(k);
@@ -321,6 +324,75 @@ where
             );
         }
         f => panic!("unknown msm fn {}", f),
+    }
+    Value::Object(out)
+}
+
+/// MSM over a table of small multiples of one base point (large inputs): C10
+pub fn exec_msml<G: Grp>(op: &Value) -> Value
+where
+    G: CurveProjective<Scalar = pairing::bls12_381::Fr>,
+    G::Base: J,
+    G::Affine: CurveAffine<Projective = G, Base = G::Base, Scalar = pairing::bls12_381::Fr>,
+{
+    let b: G::Affine = j_to_aff::<G>(&op["base"]);
+    // table[j] = [j - 8] B for j = 0..16 (input preparation; certified by the specification)
+    let mut table: Vec<G::Affine> = vec![<G::Affine as CurveAffine>::zero(); 17];
+    let mut acc = G::zero();
+    for j in 1..=8 {
+        acc.add_assign_mixed(&b);
+        table[8 + j] = acc.into_affine();
+        let mut n = acc;
+        n.negate();
+        table[8 - j] = n.into_affine();
+    }
+    let pts: Vec<G::Affine> = op["a"]
+        .as_array()
+        .unwrap()
+        .iter()
+        .map(|a| table[(a.as_i64().unwrap() + 8) as usize])
+        .collect();
+    let sc = scalars_of(&op["scalars"]);
+    let scr: Vec<&[u64; 4]> = sc.iter().collect();
+    let n = std::cmp::min(pts.len(), sc.len());
+    let mut out = serde_json::Map::new();
+    out.insert(
+        "table".into(),
+        Value::Array(table.iter().map(|x| aff_to_j(x)).collect()),
+    );
+    match op["fn"].as_str().unwrap() {
+        "default" => {
+            out.insert(
+                "r".into(),
+                proj_to_j(&<G::Affine as CurveAffine>::sum_of_products(&pts, &scr)),
+            );
+            out.insert(
+                "window".into(),
+                json!(<G::Affine as CurveAffine>::find_pippinger_window(n)),
+            );
+        }
+        "pippenger" => {
+            let w = op["window"].as_u64().unwrap() as usize;
+            out.insert(
+                "r".into(),
+                proj_to_j(&<G::Affine as CurveAffine>::sum_of_products_pippinger(
+                    &pts, &scr, w,
+                )),
+            );
+        }
+        "precomp" => {
+            let mut pre = vec![<G::Affine as CurveAffine>::zero(); 256 * pts.len()];
+            for i in 0..pts.len() {
+                pts[i].precomp_256(&mut pre[i * 256..(i + 1) * 256]);
+            }
+            out.insert(
+                "r".into(),
+                proj_to_j(&<G::Affine as CurveAffine>::sum_of_products_precomp_256(
+                    &pts, &scr, &pre,
+                )),
+            );
+        }
+        f => panic!("unknown msml fn {}", f),
     }
     Value::Object(out)
 }
